@@ -13,6 +13,13 @@
   C01-TPL, A02, C01-SEG, C01-TBLSPC of fixes/cluster/known_findings.json are exactly the clusters on which pgread's
   answer differs; the theorems of Props/C01.lean carry them as explicit hypotheses (`TemplatesByName`, `A02Free`,
   `Cluster.Plain`).
+  Second review (R11): the MAPPED catalogs pg_database, pg_class, pg_attribute live under the relfilenode that
+  `pg_filenode.map` records for them (`Cluster.globalMap`, `DbContent.relmap`; identity after initdb, different after
+  VACUUM FULL / CLUSTER of the catalog) and `fsOf` writes the map files (`Spec.encRelMap`, area control); a database lies in
+  its default tablespace (`DbRow.tblspc` = pg_database.dattablespace); a column added with a non-NULL fast default
+  (`DbContent.missing` = pg_attribute.atthasmissing / attmissingval, PostgreSQL ≥ 11) has that default in every row written
+  before the ALTER TABLE.  Open findings C01-MAPPED, C01-TBLSPC (extended), C01-MISSINGVAL; hypotheses
+  `Cluster.IdentityMapped`, `Cluster.Plain`, `Cluster.NoFastDefaults`.
   Interpretations that remain (the property text leaves them open and they are stated in the claim): "ordinary user
   table" = relkind `r` with a relfilenode of its own (relfilenode 0 with relkind `r` is a MAPPED SYSTEM CATALOG — pg_class,
   pg_attribute, pg_type, pg_proc …, located through pg_filenode.map — never a user table); the "system-table filter" is the
@@ -23,6 +30,8 @@
 import PgVerif.Basic.Canon
 import PgVerif.Spec.Heap
 import PgVerif.Spec.Rows
+import PgVerif.Spec.Relmap
+import PgVerif.Spec.Crc
 namespace PgVerif.Spec
 open PgVerif
 
@@ -84,6 +93,9 @@ structure DbRow where
   /-- pg_database.datistemplate -/
   isTemplate : Bool := false
   allowConn : Bool := true
+  /-- pg_database.dattablespace: 0 = pg_default (oid 1663, directory `base/<db>/`), else the oid of the tablespace that holds
+  the database's directory (`pg_tblspc/<oid>/PG_<major>_<catversion>/<db>/`: CREATE DATABASE … TABLESPACE) -/
+  tblspc : Nat := 0
 deriving Repr, Inhabited, DecidableEq
 
 structure ClassRow where
@@ -131,6 +143,16 @@ structure DbContent where
   relation (`Datum.external`): what PostgreSQL hands to a query after detoasting.  How they follow from the stored bytes
   (pglz / LZ4, chunk reassembly) is C08's specification (Spec/Pglz, Spec/Lz4, Spec/Toast); here they are data of the cluster -/
   detoast : List (Datum × Bytes) := []
+  /-- the database's relation map (`base/<db>/pg_filenode.map`): (catalog oid, relfilenode) for the mapped catalogs whose
+  file is NOT named after their oid any more (VACUUM FULL / CLUSTER / a rewriting ALTER of pg_class or pg_attribute gives the
+  catalog a new relfilenode that is recorded only here: pg_class.relfilenode stays 0).  A catalog that is not listed lives
+  under its oid (the state initdb leaves) -/
+  relmap : List (Nat × Nat) := []
+  /-- fast defaults (PostgreSQL ≥ 11): ((attrelid, attnum), payload bytes of the default) for the columns added by
+  `ALTER TABLE … ADD COLUMN … DEFAULT <constant>` without a table rewrite: pg_attribute.atthasmissing is set and
+  attmissingval holds the value; a row written before the ALTER stores fewer attributes (`RowV.natts`) and PostgreSQL
+  returns the default for the missing one -/
+  missing : List ((Nat × Int) × Bytes) := []
 deriving Inhabited
 
 structure Cluster where
@@ -141,7 +163,13 @@ structure Cluster where
   heap of more pages is split into the files `<filenode>`, `<filenode>.1`, `<filenode>.2` … of that many pages each.
   0 = heaps are never split (every heap generated here is far below 1 GiB) -/
   segPages : Nat := 0
+  /-- the shared relation map (`global/pg_filenode.map`): (catalog oid, relfilenode) for the shared mapped catalogs
+  (pg_database 1262, pg_authid 1260 …) whose file is not named after their oid any more; see `DbContent.relmap` -/
+  globalMap : List (Nat × Nat) := []
 deriving Inhabited
+
+/-- the relfilenode of mapped catalog `oid` under the recorded deviations `m` from the identity map -/
+def mappedNode (m : List (Nat × Nat)) (oid : Nat) : Nat := (m.lookup oid).getD oid
 
 inductive Layout where
   | v12 | v14 | v16
@@ -190,10 +218,10 @@ def pgDatabaseCols (v : Nat) : List Col := if v ≥ 15 then pgDatabaseColsNew el
 def dbVals (v : Nat) (d : DbRow) : List (Option Datum) :=
   if v ≥ 15 then
     [dU32 d.oid, dName d.name, dU32 10, dI32 6, dByte 99, dBool d.isTemplate, dBool d.allowConn, dI32 (-1),
-     dU32 722, dU32 1, dU32 1663, dText locale, dText locale, none, none, none]
+     dU32 722, dU32 1, dU32 (if d.tblspc = 0 then 1663 else d.tblspc), dText locale, dText locale, none, none, none]
   else
     [dU32 d.oid, dName d.name, dU32 10, dI32 6, dName locale, dName locale, dBool d.isTemplate, dBool d.allowConn,
-     dI32 (-1), dU32 13000, dU32 480, dU32 1, dU32 1663, none]
+     dI32 (-1), dU32 13000, dU32 480, dU32 1, dU32 (if d.tblspc = 0 then 1663 else d.tblspc), none]
 
 /-- pg_class, PostgreSQL 12–16 (33 attributes) -/
 def pgClassCols : List Col :=
@@ -258,6 +286,29 @@ def attrVals (l : Layout) (a : AttrRow) : List (Option Datum) :=
      dByte 0, dBool a.notnull, dBool false, dBool false, dByte 0,
      dByte 0, dBool a.dropped, dBool true, dI16 0, dI16 a.stattarget,
      dU32 coll] ++ tail
+
+/-! ### fast defaults (atthasmissing / attmissingval) -/
+
+/-- position of `atthasmissing` in the three layouts -/
+def hasMissingIdx : Layout → Nat | .v12 => 14 | .v14 => 15 | .v16 => 14
+
+/-- `attmissingval`: a one-dimensional, one-element array (anyarray: ndim 1, no null bitmap, element type, dimension 1,
+lower bound 1) holding the default; a varlena element carries its own (short or 4-byte) header -/
+def missingArray (a : AttrRow) (payload : Bytes) : Datum :=
+  let elem : Bytes :=
+    if a.len = -1 then
+      (if payload.length ≤ 126 then UInt8.ofNat (2 * (payload.length + 1) + 1) :: payload else le 4 (4 * (payload.length + 4)) ++ payload)
+    else payload
+  textDatum (le 4 1 ++ le 4 0 ++ le 4 a.typid ++ le 4 1 ++ le 4 1 ++ elem)
+
+/-- the pg_attribute row of `a` when the database records fast defaults `m`: as `attrVals`, with atthasmissing set and
+attmissingval filled for the attributes `m` lists -/
+def attrValsM (l : Layout) (m : List ((Nat × Int) × Bytes)) (a : AttrRow) : List (Option Datum) :=
+  match m.lookup (a.relid, a.num) with
+  | none => attrVals l a
+  | some p => ((attrVals l a).set (hasMissingIdx l) (dBool true)).set ((attrVals l a).length - 1) (some (missingArray a p))
+
+theorem attrValsM_nil (l : Layout) : attrValsM l [] = attrVals l := rfl
 
 /-! ## Encoding: row versions → pages → files → tree -/
 
@@ -350,31 +401,70 @@ def numbered {α} : Nat → List α → List (Nat × α)
   | _, [] => []
   | k, x :: xs => (k, x) :: numbered (k + 1) xs
 
+/-- a file of database `oid` in the database's default tablespace `dspc` (pg_database.dattablespace; 0 = pg_default) -/
+def pathDb (dspc ver oid fn : Nat) : Bytes := if dspc = 0 then pathBase oid fn else pathTblspc dspc ver oid fn
+
 /-- where the first segment of the relation file `fn` of database `oid` lies -/
-def heapPath (ver oid : Nat) (d : DbContent) (fn : Nat) : Bytes :=
+def heapPath (ver oid : Nat) (d : DbContent) (fn : Nat) (dspc : Nat := 0) : Bytes :=
   match relOfFilenode d.cls fn with
-  | some r => if r.tblspc = 0 then pathBase oid fn else pathTblspc r.tblspc ver oid fn
-  | none => pathBase oid fn
+  | some r => if r.tblspc = 0 then pathDb dspc ver oid fn else pathTblspc r.tblspc ver oid fn
+  | none => pathDb dspc ver oid fn
 
 /-- the segment files of one heap -/
-def heapFiles (ver seg oid : Nat) (d : DbContent) (h : Nat × List (List RowV)) : List (Bytes × Bytes) :=
+def heapFiles (ver seg oid : Nat) (d : DbContent) (h : Nat × List (List RowV)) (dspc : Nat := 0) : List (Bytes × Bytes) :=
   (numbered 0 (chunksOf seg h.2)).map fun (k, pages) =>
-    (heapPath ver oid d h.1 ++ segSuffix k, encRowPages (colsOfFilenode d h.1) pages)
+    (heapPath ver oid d h.1 dspc ++ segSuffix k, encRowPages (colsOfFilenode d h.1) pages)
 
-/-- the files of one database as PostgreSQL lays them out: catalogs, every heap in its tablespace and cut into segments,
-other relations -/
-def dbFilesPlaced (ver seg : Nat) (l : Layout) (oid : Nat) (d : DbContent) : List (Bytes × Bytes) :=
-  [(pathBase oid 1259, encHeapOf pgClassCols classVals d.cls),
-   (pathBase oid 1249, encHeapOf (pgAttributeCols l) (attrVals l) d.att)] ++
-  (d.heaps.map (heapFiles ver seg oid d)).flatten ++
-  d.raws.map (fun (fn, bs) => (pathBase oid fn, bs))
+/-- the files of one database as PostgreSQL lays them out: the mapped catalogs pg_class / pg_attribute under the
+relfilenode the relation map records for them (`mappedNode d.relmap`: their oid unless the catalog was rewritten), every heap
+in its tablespace and cut into segments, other relations; `dspc` = the database's default tablespace -/
+def dbFilesPlaced (ver seg : Nat) (l : Layout) (oid : Nat) (d : DbContent) (dspc : Nat := 0) : List (Bytes × Bytes) :=
+  [(pathDb dspc ver oid (mappedNode d.relmap 1259), encHeapOf pgClassCols classVals d.cls),
+   (pathDb dspc ver oid (mappedNode d.relmap 1249), encHeapOf (pgAttributeCols l) (attrValsM l d.missing) d.att)] ++
+  (d.heaps.map (fun h => heapFiles ver seg oid d h dspc)).flatten ++
+  d.raws.map (fun (fn, bs) => (pathDb dspc ver oid fn, bs))
+
+/-! ### relation maps -/
+
+/-- the mapped catalogs every database's map lists (pg_class, pg_attribute, pg_type, pg_proc) and the shared ones
+(pg_database, pg_authid, pg_auth_members, pg_tablespace) — a real map also lists their indexes and TOAST relations, which no
+reader of this project looks up -/
+def localMapped : List Nat := [1259, 1249, 1247, 1255]
+def globalMapped : List Nat := [1262, 1260, 1261, 1213]
+
+/-- a `pg_filenode.map` file of a cluster of major version `ver` holding `entries`: PostgreSQL's layout (`Spec.encRelMap`,
+Spec/Relmap.lean: 512 bytes up to version 15, 524 bytes in 16), unused slots zero, the CRC-32C of the bytes before it -/
+def relmapFileOf (ver : Nat) (entries : List (Nat × Nat)) : Bytes :=
+  let lay : RelMapLayout := if ver ≥ 16 then .v16 else .v12
+  let unused := zeros (8 * (lay.maxMappings - entries.length))
+  let body := le 4 relmapMagic ++ (le 4 entries.length ++ (entries.flatMap encMapping ++ unused))
+  encRelMap { mappings := entries, unused, crc := crc32c body, pad := zeros lay.padLen }
+
+/-- the entries of a map: every listed catalog with its current relfilenode -/
+def relmapEntries (cats : List Nat) (m : List (Nat × Nat)) : List (Nat × Nat) := cats.map fun o => (o, mappedNode m o)
+
+def pathMapGlobal : Bytes := strBytes "global/pg_filenode.map"
+def pathMapDb (dspc ver oid : Nat) : Bytes :=
+  if dspc = 0 then strBytes "base/" ++ natBytes oid ++ strBytes "/pg_filenode.map"
+  else strBytes "pg_tblspc/" ++ natBytes dspc ++ strBytes "/PG_" ++ natBytes ver ++ strBytes "_" ++ natBytes (catVersion ver) ++
+    strBytes "/" ++ natBytes oid ++ strBytes "/pg_filenode.map"
 
 /-- the file tree of the cluster: (relative path, content).  (`dbFiles` above is the special case without segments and
 tablespaces: `Proofs.Cluster.dbFilesPlaced_plain`.) -/
+def dbTblspc (c : Cluster) (oid : Nat) : Nat :=
+  match c.dbs.live.find? (fun db => db.oid == oid) with | some db => db.tblspc | none => 0
+
+/-- the relation map files of the cluster: the shared one and one per database directory (listed after every relation
+file) -/
+def mapFilesOf (c : Cluster) : List (Bytes × Bytes) :=
+  (pathMapGlobal, relmapFileOf c.pgVersion (relmapEntries globalMapped c.globalMap)) ::
+  c.content.map fun (oid, d) => (pathMapDb (dbTblspc c oid) c.pgVersion oid, relmapFileOf c.pgVersion (relmapEntries localMapped d.relmap))
+
 def filesOf (c : Cluster) : List (Bytes × Bytes) :=
-  [(strBytes "PG_VERSION", natBytes c.pgVersion ++ [10]),
-   (pathGlobal 1262, encHeapOf (pgDatabaseCols c.pgVersion) (dbVals c.pgVersion) c.dbs)] ++
-  (c.content.map fun (oid, d) => dbFilesPlaced c.pgVersion c.segPages c.layout oid d).flatten
+  ([(strBytes "PG_VERSION", natBytes c.pgVersion ++ [10]),
+    (pathGlobal (mappedNode c.globalMap 1262), encHeapOf (pgDatabaseCols c.pgVersion) (dbVals c.pgVersion) c.dbs)] ++
+   (c.content.map fun (oid, d) => dbFilesPlaced c.pgVersion c.segPages c.layout oid d (dbTblspc c oid)).flatten) ++
+  mapFilesOf c
 
 /-- the file system a reader sees: first entry for a path wins -/
 def fsOf (c : Cluster) : Bytes → Option Bytes := fun p => (filesOf c).lookup p
@@ -386,8 +476,8 @@ def isPrefixB (p s : Bytes) : Bool := p.isPrefixOf s
 /-- lower-casing of the ASCII letters A–Z: the Spec's definition of "case-insensitive" (PostgreSQL's own identifier folding
 touches ASCII letters only in the encodings where that matters).  pgread follows Go's Unicode tables (É/é, K/K …, and maps
 invalid bytes to U+FFFD); the theorems are stated for the filters and names on which both notions coincide
-(`Model.GoCase.FilterStable`: every ASCII string, and e.g. `été`, `日本`), the families tag the other cases `case=unicode` and
-give no SPEC -/
+(`Model.GoCase.FilterStable`: every ASCII string, and e.g. `été`, `日本`; not `ÉTÉ`, not `Āb`), the families tag the other cases
+`case=unicode` / `spec-silent-name` and give no SPEC -/
 def lowerB (s : Bytes) : Bytes := s.map fun b => if 65 ≤ b ∧ b ≤ 90 then b + 32 else b
 
 /-- every byte is ASCII -/
@@ -452,12 +542,21 @@ def storedCols (val : Val) (tbl : List (Datum × Bytes)) : List Col → List (Op
     pure ((c.name, x) :: rest)
   | _, _, _ => pure []
 
-/-- the row a correct dump reports: every declared column with the value that was stored (NULL where the value is NULL and
-for columns added after the row was written) -/
+/-- the row as its own bytes give it: every declared column with the value that was stored (NULL where the value is NULL
+and for columns added after the row was written — `fillMissing` then puts the column's fast default there, if it has one) -/
 def storedRow (val : Val) (tbl : List (Datum × Bytes)) (cols : List Col) (r : RowV) : DRow :=
   match storedCols val tbl cols r.vals r.natts with
   | .ok ps => ps
   | .error _ => []
+
+/-- fast defaults: an attribute the row does not store (position ≥ the row's natts) whose column has a recorded default
+reads as that default, not NULL -/
+def fillMissing (val : Val) (m : List ((Nat × Int) × Bytes)) : List AttrRow → Nat → DRow → DRow
+  | a :: as, natts, kv :: row =>
+    (match natts, m.lookup (a.relid, a.num) with
+     | 0, some p => (kv.1, match val p a.typid with | .ok v => v | .error _ => GoVal.nil)
+     | _, _ => kv) :: fillMissing val m as (natts - 1) row
+  | _, _, row => row
 
 def liveRows (pages : List (List RowV)) (cols : List Col) : List RowV :=
   pages.flatten.filter fun r => liveBits (formTuple cols r).infomask
@@ -468,7 +567,7 @@ def expectedTable (val : Val) (d : DbContent) (o : Options) (r : ClassRow) : Tab
   let rows : List DRow :=
     if o.listOnly then []
     else match d.heaps.lookup r.filenode with
-      | some pages => (liveRows pages cols).map (storedRow val d.detoast cols)
+      | some pages => (liveRows pages cols).map fun row => fillMissing val d.missing attrs row.natts (storedRow val d.detoast cols row)
       | none => []
   { oid := r.oid, name := r.name, filenode := r.filenode, kind := [114],
     columns := attrs.map fun a => ⟨a.name, (typeName a.typid).getD [], a.typid⟩,
@@ -582,10 +681,37 @@ def Cluster.WF (c : Cluster) : Prop :=
 def TemplatesByName (c : Cluster) : Prop := ∀ db ∈ c.dbs.live, isTemplateName db.name = db.isTemplate
 instance (c : Cluster) : Decidable (TemplatesByName c) := by unfold TemplatesByName; infer_instance
 
-/-- no heap is split into segments and no relation lies outside the default tablespace (findings C01-SEG, C01-TBLSPC are
-the negations of the two parts) -/
-def Cluster.Plain (c : Cluster) : Prop := c.segPages = 0 ∧ ∀ p ∈ c.content, ∀ r ∈ p.2.cls.live, r.tblspc = 0
+/-- no heap is split into segments, no relation lies outside its database's default tablespace and every database's default
+tablespace is pg_default (findings C01-SEG, C01-TBLSPC are the negations: the first part, and the second or third part) -/
+def Cluster.Plain (c : Cluster) : Prop :=
+  c.segPages = 0 ∧ (∀ p ∈ c.content, ∀ r ∈ p.2.cls.live, r.tblspc = 0) ∧ ∀ db ∈ c.dbs.live, db.tblspc = 0
 instance (c : Cluster) : Decidable c.Plain := by unfold Cluster.Plain; infer_instance
+
+/-- the mapped catalogs the dump reads — pg_database, and pg_class / pg_attribute of every database — still live under
+their oid (the state after initdb; finding C01-MAPPED is the negation: pgread opens `global/1262`, `base/<db>/1259`,
+`base/<db>/1249` by name and never reads pg_filenode.map) -/
+def Cluster.IdentityMapped (c : Cluster) : Prop :=
+  mappedNode c.globalMap 1262 = 1262 ∧ ∀ p ∈ c.content, mappedNode p.2.relmap 1259 = 1259 ∧ mappedNode p.2.relmap 1249 = 1249
+instance (c : Cluster) : Decidable c.IdentityMapped := by unfold Cluster.IdentityMapped; infer_instance
+
+/-- no database records a fast default (finding C01-MISSINGVAL is about the clusters that do: pgread reports NULL where
+PostgreSQL returns the default) -/
+def Cluster.NoFastDefaults (c : Cluster) : Prop := ∀ p ∈ c.content, p.2.missing = []
+instance (c : Cluster) : Decidable c.NoFastDefaults := by unfold Cluster.NoFastDefaults; infer_instance
+
+/-- what `Cluster.WF` does not ask and a real cluster satisfies: the relation maps are maps (no catalog listed twice,
+relfilenodes in 1 … 2^32 − 1), a relocated catalog file does not collide with another file of its directory, and the recorded
+fast defaults belong to live user attributes and are short enough for the pg_attribute page -/
+def Cluster.MapWF (c : Cluster) : Prop :=
+  ((c.globalMap.map (·.1)).Nodup) ∧ (∀ e ∈ c.globalMap, 0 < e.2 ∧ e.2 < 2 ^ 32 ∧ e.1 ∈ globalMapped) ∧
+  ((globalMapped.map (mappedNode c.globalMap)).Nodup) ∧
+  ∀ p ∈ c.content,
+    ((p.2.relmap.map (·.1)).Nodup) ∧ (∀ e ∈ p.2.relmap, 0 < e.2 ∧ e.2 < 2 ^ 32 ∧ e.1 ∈ localMapped) ∧
+    ((localMapped.map (mappedNode p.2.relmap) ++ (p.2.heaps.map (·.1) ++ p.2.raws.map (·.1))).Nodup ∨ p.2.relmap = []) ∧
+    ((p.2.missing.map (·.1)).Nodup) ∧
+    (∀ e ∈ p.2.missing, e.2.length ≤ 64 ∧ ∃ a ∈ p.2.att.live, (a.relid, a.num) = e.1 ∧ 0 < a.num ∧ ¬ a.dropped) ∧
+    pagesFit (p.2.att.map fun pg => pg.map fun s => formRow (pgAttributeCols c.layout) (attrValsM c.layout p.2.missing s.val) s.infomask)
+instance (c : Cluster) : Decidable c.MapWF := by unfold Cluster.MapWF; infer_instance
 
 /-- no row of a table that `o` dumps with its rows holds an inline-compressed or out-of-line value (finding A02 is the
 negation) -/
